@@ -452,11 +452,13 @@ impl<S: Syntax, D> SyntaxNode<S, D> {
     fn try_write(&self, index: usize, elem: SyntaxElement<S, D>) {
         // safety: children are pre-allocated and indices are determined internally
         let _write = unsafe { self.data().child_locks.get_unchecked(index).write() };
-        // safety: we are the only writer and there are no readers as evidenced by the write lock
-        let slot = unsafe { &mut *self.data().children.get_unchecked(index).get() };
-        if slot.is_none() {
+        // safety: we are the only writer as evidenced by the write lock. If the slot is already initialized, other
+        // threads may still hold references into it that were handed out by `read`, so an exclusive reference may only
+        // be formed while the slot is empty: look at it through a shared reference first.
+        let slot: *mut Option<SyntaxElement<S, D>> = unsafe { self.data().children.get_unchecked(index).get() };
+        if unsafe { (*slot).is_none() } {
             // we are first to initialize the child
-            *slot = Some(elem);
+            unsafe { *slot = Some(elem) };
         } else {
             // another thread got the write lock first and already initialized it
             match elem {
